@@ -92,10 +92,26 @@ func (t *Tree) ResolveBatch(st SubmitStep, known func(types.BlockID) bool) (node
 		return nodes, blocks, nil, false
 	}
 	for k, n := range nodes {
-		if n.Ledger == nil || n.Block.V2 == nil || (k > 0 && n.Parent != nodes[k-1]) {
+		if n.Block.V2 == nil || (k > 0 && n.Parent != nodes[k-1]) {
 			return nodes, blocks, nil, false
 		}
-		states = append(states, n.Ledger.State)
+		if n.Ledger != nil {
+			states = append(states, n.Ledger.State)
+			continue
+		}
+		// A block above a stored but never validated ancestor that is
+		// invalid: the syncer (the call's real user) validates a downloaded
+		// batch only against the state a peer's checkpoint yields, never
+		// against the ancestors, so such a batch reaches the call whenever
+		// each block passes consensus.ValidateBlock against the state before
+		// it. The reorg then fails at the ancestor and must be rolled back.
+		if n.Parent == nil || n.Parent.Ledger != nil || n.OwnInvalid || n.Block.ParentID != n.Parent.ID {
+			return nodes, blocks, nil, false
+		}
+		if consensus.ValidateBlock(n.Parent.Hdr, n.Block, consensus.V1BlockSupplement{}) != nil {
+			return nodes, blocks, nil, false
+		}
+		states = append(states, n.Hdr)
 	}
 	return nodes, blocks, states, true
 }
